@@ -810,7 +810,7 @@ def invalid_reasons(schema, xml2: str) -> Optional[set]:
         chardata = bool((elem.text or '').strip()) or any((c.tail or '').strip() for c in elem)
         if blank and ('Atomic' in vt or 'List' in vt or 'Union' in vt or 'Facet' in vt or 'SimpleType' in vt):
             out.add('C05-F1')        # empty element emitted for a simple type that rejects the empty string
-        elif chardata and vt.endswith('Group') and not v.mixed:
+        elif chardata and vt in ('XsdGroup', 'Xsd11Group') and not v.mixed:
             out.add('C05-F2')        # character data emitted into element-only / empty content
         elif chardata and vt.endswith('Element') and v.type.is_empty() and len(elem) == 0:
             out.add('C05-F2')
@@ -1024,20 +1024,99 @@ def mutate_de(rng, d):
     return d, desc
 
 
-def soundness(ctx: Ctx, u: Unit, cname: str, opts: dict, data, n: int, pend: list) -> None:
+def _is_nsdecl(k: str, ap: str) -> bool:
+    k = k[len(ap):] if ap and k.startswith(ap) else k
+    return k == 'xmlns' or k.startswith(('xmlns:', 'xmlns$'))
+
+
+def attr_holders(data, cname: str, opts: dict) -> list:
+    """the places of a decoded structure that carry attribute entries: (container, [keys]) per element, in
+    document order; xmlns declarations are not attribute entries.  For JsonML the container is the attribute
+    dict (index 1 of the element's list), for data elements `attrib`, for the dict conventions the element's
+    dict (keys with the attribute prefix; GData has no prefix: scalar-valued keys other than `$t`)."""
+    from xmlschema.dataobjects import DataElement
+    out: list = []
+    if isinstance(data, DataElement):
+        for e in data.iter():
+            ks = [k for k in e.attrib if not _is_nsdecl(k, '')]
+            if ks:
+                out.append((e.attrib, ks))
+        return out
+    ap = {'default': opts.get('attr_prefix', '@'), 'badgerfish': '@', 'gdata': ''}.get(cname, '')
+
+    def walk(x):
+        if isinstance(x, MutableMapping):
+            if cname == 'gdata':
+                ks = [k for k, v in x.items() if isinstance(k, str) and k != '$t' and not _is_nsdecl(k, '') and
+                      not isinstance(v, (MutableMapping, MutableSequence))]
+            elif cname == 'jsonml':
+                ks = []
+            else:
+                ks = [k for k, v in x.items() if isinstance(k, str) and ap and k.startswith(ap) and
+                      not _is_nsdecl(k, ap) and not isinstance(v, MutableMapping)]
+            if ks:
+                out.append((x, ks))
+            for v in list(x.values()):
+                walk(v)
+        elif isinstance(x, MutableSequence) and not isinstance(x, (str, bytes)):
+            if cname == 'jsonml' and len(x) > 1 and isinstance(x[0], str) and isinstance(x[1], MutableMapping):
+                ks = [k for k in x[1] if isinstance(k, str) and not _is_nsdecl(k, '')]
+                if ks:
+                    out.append((x[1], ks))
+                for v in x[2:]:
+                    walk(v)
+            else:
+                for v in x:
+                    walk(v)
+    walk(data)
+    return out
+
+
+def attr_mutations(rng, data, cname: str, opts: dict) -> list:
+    """attribute-entry mutations x use_defaults: all attribute entries of every element removed, all entries of
+    one element removed, one entry removed; each encoded with use_defaults True and False (with False the
+    encoder adds nothing, so an element may reach the attribute group with an empty mapping).  Judged like every
+    other mutation: strict encode raises a validation error or returns XML that the schema accepts."""
+    from xmlschema.dataobjects import DataElement
+    if not attr_holders(data, cname, opts):
+        return []
+    kinds = ['attrs-strip-all', rng.choice(['attrs-strip-element', 'attrs-drop-one'])]
+    out = []
+    for kind in kinds:
+        d = copy_de(data) if isinstance(data, DataElement) else copy.deepcopy(data)
+        hs = attr_holders(d, cname, opts)
+        desc = {'kind': kind, 'elements-with-attributes': len(hs)}
+        if kind == 'attrs-strip-all':
+            for c, ks in hs:
+                for k in ks:
+                    del c[k]
+        else:
+            i = rng.randrange(len(hs))
+            c, ks = hs[i]
+            drop = ks if kind == 'attrs-strip-element' else [rng.choice(ks)]
+            for k in drop:
+                del c[k]
+            desc.update(element=i, dropped=list(drop))
+        for ud in (False, True):
+            out.append((d, dict(desc, use_defaults=ud), {'use_defaults': ud}))
+    return out
+
+
+def soundness(ctx: Ctx, u: Unit, cname: str, opts: dict, data, n: int, pend: list, attrs: bool = False) -> None:
     from xmlschema import XMLSchemaValidationError
     cls = conv_classes()[cname]
     R = recorder(cls)
-    for _ in range(n):
-        m = mutate(ctx.rng, data, cname)
-        if m is None:
-            continue
-        mdata, desc = m
-        case = {'sid': u.sid, 'xsd': u.xsd, 'xml': u.xml, 'converter': cname, 'options': opts, 'mutation': desc,
+    if attrs:
+        todo = attr_mutations(ctx.rng, data, cname, opts)
+    else:
+        todo = [m + ({},) for m in (mutate(ctx.rng, data, cname) for _ in range(n)) if m is not None]
+    for mdata, desc, kw in todo:
+        eopts = dict(opts, **kw)
+        case = {'sid': u.sid, 'xsd': u.xsd, 'xml': u.xml, 'converter': cname, 'options': eopts, 'mutation': desc,
                 'data': L.canon(mdata)}
         LOG.clear()
         try:
-            elem = u.schema.encode(mdata, converter=R, validation='strict', **opts)
+            elem = u.schema.encode(mdata, converter=R, validation='strict', **eopts)
         except XMLSchemaValidationError:
             outcome = 'raised-validation'
         except Exception as e:
@@ -1064,12 +1143,13 @@ def soundness(ctx: Ctx, u: Unit, cname: str, opts: dict, data, n: int, pend: lis
         enclog = list(LOG)
         LOG.clear()
         ctx.case({k: case[k] for k in ('sid', 'xml', 'converter', 'options', 'mutation')}, True,
-                 tag=f'sound/{cname}')
+                 tag=(f'sound-attrs/{cname}' if kw else f'sound/{cname}'))
         ctx.count(f'sound-outcome:{outcome}')
         ctx.count(f'mutation:{desc["kind"]}')
         if outcome.startswith('raised-leak') or outcome.startswith('raised-library'):
             report(ctx, 'strict encode raised something that is not a validation error', case, {'outcome': outcome})
-        pend.append((case, enclog))
+        if not kw:
+            pend.append((case, enclog))
 
 
 # ------------------------------------------------------------------------------------ model comparison
@@ -1770,6 +1850,7 @@ def explore(ctx: Ctx, drv: Optional[Driver], n_schemas: int, n_inst: int, n_mut:
                 pend: list = []
                 if 'data' in res and n_mut:
                     soundness(ctx, u, cname, opts, res['data'], n_mut, pend)
+                    soundness(ctx, u, cname, opts, res['data'], 0, pend, attrs=True)
                 if drv is not None and 'data' in res:
                     compare_model(ctx, drv, u, cname, opts, res, pend)
                 if cname == 'badgerfish' and not opts and 'data' in res:
